@@ -423,6 +423,8 @@ class Analysis:
                     expected.setdefault(slot[0], {}).setdefault(slot[1], {})[slot[2]] = best[1].value
                     meta[slot] = {"via": "persistent", "conn": ci, "prod": best[1]}
                     self.stats["c03_persistent_slots"] += 1
+                    if best[1].outlabel[0] > best[1].step[1][0]:
+                        self.stats["c03_persistent_slots_value_announced_for_later_time"] += 1
                 elif "init" in c:
                     expected.setdefault(slot[0], {}).setdefault(slot[1], {})[slot[2]] = c["init"]
                     meta[slot] = {"via": "init", "conn": ci}
